@@ -8,7 +8,7 @@ from ..model import dotted, src_of, const_value
 from .. import AnalysisError
 
 BPMODS = ("d1bp", "d2bp", "hd1bp", "hv1bp", "l1bp", "l2bp")
-COMBINERS = {"combine_local_contractions", "process_loop_series_expansion_weights"}
+COMBINERS = {"combine_local_contractions", "process_loop_series_expansion_weights", "contract_hyper_messages"}
 
 
 def _bp_classes(ctx):
@@ -76,7 +76,36 @@ def rule_bp_exponent(ctx):
                             r.bad(Finding("bp-exponent", q,
                                           f"{(dotted(call.func) or '').split('.')[-1]}(...) (line {call.lineno}) is not given {kw}= derived from self.{attr}",
                                           where=where, operand=kw))
+    # every value route (a contract* method with a strip_exponent switch) reads the accumulator, itself or through self-calls
+    def reads(c, f, seen):
+        got = set()
+        for x in ast.walk(f.node):
+            if isinstance(x, ast.Attribute) and isinstance(x.value, ast.Name) and x.value.id == "self" and x.attr in ("exponent", "sign") and isinstance(x.ctx, ast.Load):
+                got.add(x.attr)
+            if isinstance(x, ast.Call) and isinstance(x.func, ast.Attribute) and isinstance(x.func.value, ast.Name) and x.func.value.id == "self":
+                g = c.find(x.func.attr)
+                if g is not None and not g.is_alias and g.qualname not in seen and len(seen) < 12:
+                    seen.add(g.qualname)
+                    got |= reads(c, g, seen)
+        return got
+    nv = 0
+    for c in classes:
+        for name, f in c.methods.items():
+            if f.cls is not c or f.is_alias or isinstance(f.node, ast.Lambda):
+                continue
+            if not name.startswith("contract") or "strip_exponent" not in f.params:
+                continue
+            nv += 1
+            got = reads(c, f, {f.qualname})
+            q = f"{c.name}.{name}"
+            for attr in ("exponent", "sign"):
+                if attr in got:
+                    r.ok(f"{q}[reads {attr}]", nontrivial=False)
+                else:
+                    r.bad(Finding("bp-exponent", q, f"value route never reads self.{attr} (directly or through the self-methods it calls): what was stripped into the accumulator is lost from the result",
+                                  where=f"{f.module.relpath}:{f.lineno}", operand=f"reads-{attr}"))
     r.floor(n, 10, "combining calls in BP classes")
+    r.floor(nv, 10, "BP value routes")
     return r
 
 
